@@ -322,10 +322,17 @@ class BaseTransform:
         # Idea: An operation applied to a Collection is individually
         #    applied to its BaseGeo and to each child.
 
-        # the input can be a view of the path of one of the children (e.g. `child.position`),
-        # which changes while the children are moved
-        if isinstance(displacement, np.ndarray):
-            displacement = displacement.copy()
+        # format (and thereby copy) the input once: it can be, or contain, a view of the path
+        # of one of the children (e.g. `child.position`), which changes while the children
+        # are moved
+        if getattr(self, "children", []):
+            displacement = check_format_input_vector(
+                displacement,
+                dims=(1, 2),
+                shape_m1=3,
+                sig_name="displacement",
+                sig_type="array_like (list, tuple, ndarray) with shape (3,) or (n,3)",
+            )
 
         for child in getattr(self, "children", []):
             child.move(displacement, start=start)
@@ -351,6 +358,12 @@ class BaseTransform:
         #  -> this automatically generates the rotate-Compound behavior
 
         # pylint: disable=no-member
+
+        # format (and thereby copy) the anchor once: it can be a view of the path of one of
+        # the children, which changes while the children are rotated
+        if getattr(self, "children", []):
+            anchor = check_format_input_anchor(anchor)
+
         for child in getattr(self, "children", []):
             ppth = self._position if parent_path is None else parent_path
             child._rotate(rotation, anchor=anchor, start=start, parent_path=ppth)
